@@ -372,6 +372,96 @@ def make_quoted():
     return fn
 
 
+# ------------------------------------------------------------------ O2e: what the user excludes reaches the deny list (collect())
+RM_SECTIONS = ["files", "commands", "components", "patterns", "keywords"]
+
+
+def collect_merge(user_sections, manifest_sections):
+    """insights.collect.collect() with a minimal manifest whose blacklist declares `manifest_sections`, and the user's exclusions
+    in `user_sections`: returns the problems with the configuration handed to apply_blacklist"""
+    seen = []
+    real = collect.apply_blacklist
+    collect.apply_blacklist = lambda cfg: seen.append(dict(cfg))
+    base = tempfile.mkdtemp(prefix="c06col_")
+    try:
+        man = {"version": 0, "client": {"context": {"class": "insights.core.context.HostContext"}, "blacklist": dict((k, []) for k in manifest_sections),
+                                         "persist": [], "run_strategy": {"name": "serial"}},
+               "plugins": {"default_component_enabled": False, "packages": [], "configs": []}}
+        rm = dict((k, ["user-" + k]) for k in user_sections)
+        try:
+            collect.collect(manifest=man, tmp_path=base, archive_name="arch", rm_conf=rm)
+        except Exception as ex:  # noqa
+            return ["collect() raised %r" % (ex,)]
+        if not seen:
+            return ["collect() never applied the deny list"]
+        return ["the user's %s exclusions %r did not reach the deny list (it got %r)" % (k, rm[k], seen[0].get(k)) for k in user_sections if seen[0].get(k) != rm[k]]
+    finally:
+        collect.apply_blacklist = real
+        shutil.rmtree(base, ignore_errors=True)
+
+
+def make_collect_merge():
+    def fn(en):
+        with REG:
+            user = [k for k in RM_SECTIONS if en.flag("user_" + k)]
+            man = [k for k in RM_SECTIONS if en.flag("manifest_" + k)]
+            case = lambda mv: {"kind": "merge", "user": user, "manifest": man}  # noqa
+            en.note_sample(case)
+            bad = collect_merge(user, man)
+            en.must_hold(not bad, "deny-list", case, detail=bad)
+    return fn
+
+
+# ------------------------------------------------------------------ O3e: nothing is created outside the output directory while persisting (real files)
+def persist_watch(kind_):
+    """a datasource result persisted for real with the scratch-file directory (TMPDIR) pointing at a watched directory"""
+    base = tempfile.mkdtemp(prefix="c06w_")
+    watched = os.path.join(base, "tmpdir")
+    os.makedirs(watched)
+    old_tmp, old_env = tempfile.tempdir, os.environ.get("TMPDIR")
+    tempfile.tempdir = watched
+    os.environ["TMPDIR"] = watched
+    try:
+        content = {"normal": ["a line", "another"], "empty": [], "one-empty-line": [""]}[kind_]
+
+        class _Cleaner(object):           # host collection cleans what it stores; blank-only content comes back empty and is refused
+            def clean_content(self, lines, **kw):
+                return [l for l in lines if l.strip()]
+
+        class _Spec(object):
+            no_redact, no_obfuscate = False, []
+        prov = SF.DatasourceProvider(content, "rel/result", ds=_Spec(), ctx=HostContext(), cleaner=_Cleaner())
+        dst = os.path.join(base, "out", "data", "rel", "result")
+        try:
+            prov.write(dst)
+        except ContentException:
+            pass
+        left = []
+        for dp, dn, fn in os.walk(base):
+            for n in fn:
+                full = os.path.join(dp, n)
+                if not full.startswith(os.path.join(base, "out", "data") + os.sep):
+                    left.append(os.path.relpath(full, base))
+        return ["persisting a %s result left %s outside the output directory" % (kind_, left)] if left else []
+    finally:
+        tempfile.tempdir = old_tmp
+        if old_env is None:
+            os.environ.pop("TMPDIR", None)
+        else:
+            os.environ["TMPDIR"] = old_env
+        shutil.rmtree(base, ignore_errors=True)
+
+
+def make_persist_watch():
+    def fn(en):
+        k_ = ["normal", "empty", "one-empty-line"][en.choice("content", 3)]
+        case = lambda mv: {"kind": "watch", "content": k_}  # noqa
+        en.note_sample(case)
+        bad = persist_watch(k_)
+        en.must_hold(not bad, "written-inside-output", case, detail=bad)
+    return fn
+
+
 # ------------------------------------------------------------------ O2c: components deny-listed by name
 def run_components_denied(denied, order, stale):
     """two datasources whose names end in the same segment; `denied` (subset of A, B) is deny-listed by full component name through
@@ -615,6 +705,12 @@ def obligations(tier):
                    desc="commands whose text carries quotes, escapes or repeated blanks, deny-listed exactly as the spec spells them (or by another entry): the provider refuses exactly the denied ones (finite exploration)",
                    bounds={"commands": QUOTED_COMMANDS, "deny entry": ["the command as written", "the command plus an argument", "another command"], "factories": ["simple_command", "foreach_execute"]},
                    stubs=["HostContext.shell_out / check_output record the command instead of executing it", "`which` answers that the binary exists"], encoded=[SF.CommandOutputProvider.validate], budget_s=60, replay="factory", check_sample=True),
+        Obligation("O2e-user-exclusions-merged", make_collect_merge(), ["deny-list"],
+                   desc="insights.collect.collect() with a minimal manifest: every section of the user's exclusions (files, commands, components, patterns, keywords) reaches apply_blacklist, whichever sections the manifest itself declares (finite exploration)",
+                   bounds={"user sections": "every subset of %s" % RM_SECTIONS, "manifest sections": "every subset"}, stubs=["apply_blacklist records its argument"], encoded=[collect.collect], budget_s=120, replay="factory", check_sample=True),
+        Obligation("O3e-no-scratch-files-outside", make_persist_watch(), ["written-inside-output"],
+                   desc="a datasource result written for real (normal, empty, one empty line) with TMPDIR pointing at a watched directory: no file is left outside the output directory (finite exploration)",
+                   bounds={"contents": ["normal", "empty", "one-empty-line"]}, encoded=[SF.ContentProvider.write], budget_s=60, replay="dest", check_sample=True),
         Obligation("O2c-components-by-name", make_components_denied(), ["deny-list"],
                    desc="components deny-listed by their full name through apply_blacklist: two datasources whose names end in the same segment, any subset denied in either order, with or without an earlier skip of the same short name in the process",
                    bounds={"components": 2, "denied": "any subset, both orders", "earlier skip recorded": "yes / no"}, encoded=[collect.apply_blacklist, dr.set_enabled, dr.run_components],
@@ -708,6 +804,10 @@ def _native(case):
     if kind == "factory":
         touched, dfile, dcmd = run_factory(case["factory"], case["denied"], case["mode"])
         return judge_factory(touched, dfile, dcmd)
+    if kind == "merge":
+        return collect_merge(case["user"], case["manifest"])
+    if kind == "watch":
+        return persist_watch(case["content"])
     if kind == "raw":
         return raw_persist(case["source"], case["save_as"])
     if kind == "quoted":
